@@ -168,7 +168,68 @@ func legalAmount(gs *pokerface.GameState, gp int, c spyCall) string {
 	return ""
 }
 
+// c18ConcurrentDelivery: the same view reaches one bot's actor from several goroutines at the same instant (in a
+// running system: the hand's updater goroutine plus API calls that publish the table). The bot must answer the
+// request once.
+func c18ConcurrentDelivery(c *h.Ctx) {
+	r := c.R
+	br := actor.NewBotRunner("me")
+	sp := &spyAdapter{noForward: true, name: "me", idx: 0}
+	a := actor.NewActor()
+	a.SetAdapter(sp)
+	a.SetRunner(br)
+	rounds := 300
+	if c.Thorough() {
+		rounds = 3000
+	}
+	workers := 2 + r.Intn(7)
+	for round := 0; round < rounds; round++ {
+		var allowed []string
+		event := "ReadyRequested"
+		switch r.Intn(3) {
+		case 0:
+			allowed = []string{"ready"}
+		case 1:
+			event, allowed = "RoundStarted", []string{"fold", "call", "allin"}
+		case 2:
+			event, allowed = "RoundStarted", []string{"check", "allin"}
+		}
+		t := c19Table(allowed, event, []string{"dealer"}, 10, int64(1000+round))
+		sp.gs = t.State.GameState
+		before := len(sp.snapshotCalls())
+		var wg sync.WaitGroup
+		start := make(chan struct{})
+		for wkr := 0; wkr < workers; wkr++ {
+			b, _ := json.Marshal(t)
+			var cp pt.Table
+			json.Unmarshal(b, &cp) // every delivery gets its own copy, like the real adapter makes
+			wg.Add(1)
+			go func() {
+				defer wg.Done()
+				<-start
+				a.UpdateTableState(&cp)
+			}()
+		}
+		close(start)
+		wg.Wait()
+		got := sp.snapshotCalls()[before:]
+		if len(got) != 1 {
+			c.Violate("C18/request-answered-more-than-once/concurrent-delivery", fmt.Sprintf("round %d: one view (%s, allowed %v) delivered to the bot's actor from %d goroutines at once was answered %d times: %v", round, event, allowed, workers, len(got), got), nil)
+			return
+		}
+		c.Count("concurrent_delivery_rounds", 1)
+	}
+	c.Feature("same-view-delivered-concurrently")
+	c.Nontrivial()
+	c.FP("concurrent-delivery", workers, c.Seed)
+	c.Sample(map[string]interface{}{"kind": "same view delivered to one bot from several goroutines at once", "goroutines": workers, "rounds": rounds})
+}
+
 func c18Run(c *h.Ctx) {
+	if c.Case%20 == 7 {
+		c18ConcurrentDelivery(c)
+		return
+	}
 	r := c.R
 	humanized := c.Case%20 == 3 // bots that think 0..1 s before a wager (answers come from a timer, outside the delivery)
 	gen := h.GenOpts{MinSeats: 2, MaxSeats: 9, MinPlayers: 2, Modes: []string{"ct", "cash"}, ShortStacks: r.Intn(3) > 0}
@@ -446,7 +507,7 @@ func init() {
 		},
 		RequiredFeatures: func(tier string) []string {
 			f := []string{"bot-action:ready", "bot-action:pay", "bot-action:call", "bot-action:raise", "bot-action:bet", "bot-action:allin", "bot-action:fold", "bot-action:check", "bot-action:pass", "stale-view-redelivered", "table-event-mid-hand", "stack-at-most-one-big-blind"}
-			f = append(f, "humanized", "table-events-while-bots-think")
+			f = append(f, "humanized", "table-events-while-bots-think", "same-view-delivered-concurrently")
 			return f
 		},
 		CaseTimeout: 240e9,
